@@ -86,6 +86,9 @@ highlight(struct vbi_search *s, cache_page *vtp,
 	s->start_subno = vtp->subno;
 	s->row[0] = LAST_ROW + 1;
 	s->col[0] = 0;
+	/* No text before a match in the first cell of the first row. */
+	s->row[1] = FIRST_ROW;
+	s->col[1] = 0;
 
 	for (i = FIRST_ROW; i < LAST_ROW; i++) {
 		vbi_char *acp = &pg->text[i * pg->columns];
